@@ -119,6 +119,9 @@ func writeProg(dir string, p Prog) (string, error) {
 		return "", err
 	}
 	for n, t := range p.Text() {
+		if err := os.MkdirAll(filepath.Dir(filepath.Join(dir, n)), 0o755); err != nil {
+			return "", err
+		}
 		if err := os.WriteFile(filepath.Join(dir, n), []byte(t), 0o644); err != nil {
 			return "", err
 		}
@@ -497,8 +500,11 @@ func shrink(t Tools, p Prog, o OptSet, want *Diff, dir string, runs int, budget 
 	for fi := len(p.Files) - 1; fi >= 1; fi-- {
 		used := false
 		for _, g := range p.Files {
-			for _, l := range g.Lines {
-				used = used || l == fmt.Sprintf(`include "%s"`, p.Files[fi].Name)
+			for _, l := range g.Lines { // include paths are relative to the including file
+				if strings.HasPrefix(l, `include "`) && strings.HasSuffix(l, `"`) {
+					q := l[len(`include "`) : len(l)-1]
+					used = used || filepath.Join(filepath.Dir(g.Name), q) == p.Files[fi].Name
+				}
 			}
 		}
 		if !used {
